@@ -84,6 +84,7 @@ func main() {
 	flag.Parse()
 	r := lib.Rand()
 	w := lib.NewWriter(header, 120)
+	defer w.Guard()
 	n := lib.Count(500, 8000)
 	g := &tlsgen.Gen{R: r}
 
@@ -208,7 +209,15 @@ func main() {
 			}
 			lb, lerr := tls.Marshal(leaf)
 			if lerr != nil {
-				panic(lerr)
+				// every value drawn here is one RFC 6962 allows: a refusal is a failure of the property, not of the harness
+				w.Add(lib.Case{
+					Coq:    fmt.Sprintf("CRfcLeaf %s %s %s %s", lib.Nn(ts), entryCoq, lib.Bytes(ext), lib.Bytes(nil)),
+					Input:  map[string]interface{}{"op": "leaf", "precert": precert, "cert_len": certLen, "ext_len": len(ext), "ts": ts},
+					Impl:   map[string]interface{}{"error": lerr.Error()},
+					PropOK: false, Note: fmt.Sprintf("tls.Marshal refuses a MerkleTreeLeaf that RFC 6962 allows (certificate %d bytes, extensions %d bytes): %v", certLen, len(ext), lerr),
+					Tags: []string{"rfc-leaf:refused"},
+				})
+				continue
 			}
 			h, herr := ct.LeafHashForLeaf(&leaf)
 			want := sha256.Sum256(append([]byte{0}, lb...))
@@ -255,7 +264,7 @@ func main() {
 				Input:  map[string]interface{}{"op": "sct-siginput", "version": version, "etype": etype},
 				Impl:   map[string]interface{}{"ok": serr == nil, "len": len(sb)},
 				PropOK: metaOK && (serr == nil) == (version == ct.V1 && etype <= 1), Note: "signature input produced for unknown version / entry type (or refused for a known one), or it depends on unsigned fields of the entry",
-				Tags:   []string{fmt.Sprintf("sct-input:ok=%v", serr == nil)},
+				Tags: []string{fmt.Sprintf("sct-input:ok=%v", serr == nil)},
 			})
 			if serr == nil && etype <= 1 && entry.Leaf.TimestampedEntry == &vte {
 				w.Add(lib.Case{
@@ -289,7 +298,7 @@ func main() {
 				Input:  map[string]interface{}{"op": "sth-siginput", "version": version},
 				Impl:   map[string]interface{}{"ok": serr == nil},
 				PropOK: (serr == nil) == (version == ct.V1), Note: "STH signature input for unknown version",
-				Tags:   []string{fmt.Sprintf("sth-input:ok=%v", serr == nil)},
+				Tags: []string{fmt.Sprintf("sth-input:ok=%v", serr == nil)},
 			})
 			// ToSignedCertificateTimestamp / ToSignedTreeHead with good and bad parts, through JSON
 			ds := tls.DigitallySigned{Algorithm: tls.SignatureAndHashAlgorithm{Hash: tls.HashAlgorithm(r.Intn(256)), Signature: tls.SignatureAlgorithm(r.Intn(256))},
@@ -345,8 +354,65 @@ func main() {
 				Input:  map[string]interface{}{"op": "to-sth", "root_len": len(rootB), "sig_len": len(sig)},
 				Impl:   map[string]interface{}{"ok": therr == nil},
 				PropOK: jerr2 == nil && string(srsp2.SHA256RootHash) == string(rootB) && srsp2.TreeSize == size, Note: "GetSTHResponse does not survive JSON",
-				Tags:   []string{fmt.Sprintf("to-sth:ok=%v", therr == nil)},
+				Tags: []string{fmt.Sprintf("to-sth:ok=%v", therr == nil)},
 			})
+			// the JSON forms of the structures themselves: ct.DigitallySigned and ct.SHA256Hash travel as
+			// base64 strings (e.g. inside ct.SignedTreeHead); decoding promises a complete parse
+			{
+				b64 := base64.StdEncoding.EncodeToString(sig)
+				var d ct.DigitallySigned
+				jerr := json.Unmarshal([]byte(`"`+b64+`"`), &d)
+				var d2 ct.DigitallySigned
+				ferr := d2.FromBase64String(b64)
+				// independent reading of RFC 5246 4.7: hash, signature, 2-byte length, exactly that many bytes
+				exact := len(sig) >= 4 && int(sig[2])<<8|int(sig[3]) == len(sig)-4
+				do := "ErrStruct"
+				ok, note := true, ""
+				if jerr == nil {
+					dd := tlsgen.FromGoType(reflect.TypeOf(tls.DigitallySigned(d)))
+					do = "Ok " + tlsgen.ValCoq(dd, reflect.ValueOf(tls.DigitallySigned(d)))
+					if back, berr := json.Marshal(d); berr != nil || string(back) != `"`+b64+`"` {
+						ok, note = false, "ct.DigitallySigned does not survive JSON"
+					}
+				}
+				if (jerr == nil) != exact || (ferr == nil) != exact {
+					ok, note = false, fmt.Sprintf("ct.DigitallySigned JSON / FromBase64String accept=%v/%v for a byte string that is exactly one DigitallySigned: %v (%d bytes)", jerr == nil, ferr == nil, exact, len(sig))
+				}
+				w.Add(lib.Case{
+					Coq:    fmt.Sprintf("CComplete gen_DigitallySigned %s (%s)", lib.Bytes(sig), do),
+					Input:  map[string]interface{}{"op": "json-digitally-signed", "sig_len": len(sig), "exact": exact},
+					Impl:   map[string]interface{}{"json_ok": jerr == nil, "from_base64_ok": ferr == nil},
+					PropOK: ok, Note: note, Tags: []string{fmt.Sprintf("json-ds:exact=%v:ok=%v", exact, jerr == nil)},
+				})
+				// a whole ct.SignedTreeHead through JSON
+				hb := payload(r, []int{32, 32, 32, 31, 33, 0}[r.Intn(6)])
+				doc := fmt.Sprintf(`{"sth_version":0,"tree_size":%d,"timestamp":%d,"sha256_root_hash":%q,"tree_head_signature":%q,"log_id":%q}`,
+					size, ts, base64.StdEncoding.EncodeToString(hb), b64, base64.StdEncoding.EncodeToString(id))
+				var sthJ ct.SignedTreeHead
+				serr := json.Unmarshal([]byte(doc), &sthJ)
+				wantOK := exact && len(hb) == 32 && len(id) == 32
+				ok2, note2 := true, ""
+				if (serr == nil) != wantOK {
+					ok2, note2 = false, fmt.Sprintf("ct.SignedTreeHead JSON accept=%v (root hash %d bytes, log id %d bytes, signature exact=%v)", serr == nil, len(hb), len(id), exact)
+				}
+				if serr == nil {
+					if sthJ.TreeSize != size || sthJ.Timestamp != ts || string(sthJ.SHA256RootHash[:]) != string(hb) || string(sthJ.LogID[:]) != string(id) {
+						ok2, note2 = false, "ct.SignedTreeHead JSON decodes to other field values"
+					}
+					back, _ := json.Marshal(&sthJ)
+					var again ct.SignedTreeHead
+					if err := json.Unmarshal(back, &again); err != nil || !reflect.DeepEqual(again, sthJ) {
+						ok2, note2 = false, "ct.SignedTreeHead does not survive JSON"
+					}
+				}
+				w.Add(lib.Case{
+					Coq:    fmt.Sprintf("CComplete gen_DigitallySigned %s (%s)", lib.Bytes(sig), do),
+					Key:    fmt.Sprintf("json-sth-%d", i),
+					Input:  map[string]interface{}{"op": "json-signed-tree-head", "root_len": len(hb), "id_len": len(id), "sig_exact": exact},
+					Impl:   map[string]interface{}{"ok": serr == nil},
+					PropOK: ok2, Note: note2, Tags: []string{fmt.Sprintf("json-sth:ok=%v", serr == nil)},
+				})
+			}
 		default: // RawLogEntryFromLeaf on valid and perturbed (leaf_input, extra_data)
 			precert := r.Intn(2) == 0
 			var chain []ct.ASN1Cert
@@ -377,7 +443,14 @@ func main() {
 			}
 			li, lerr := tls.Marshal(leaf)
 			if lerr != nil && mut != "leaf-type" {
-				panic(lerr)
+				w.Add(lib.Case{
+					Coq:    "CRawEntry [] [] ErrStruct",
+					Key:    fmt.Sprintf("raw-entry-marshal-refused-%d", i),
+					Input:  map[string]interface{}{"op": "raw-entry", "mutation": mut},
+					Impl:   map[string]interface{}{"error": lerr.Error()},
+					PropOK: false, Note: fmt.Sprintf("tls.Marshal refuses a well-formed MerkleTreeLeaf: %v", lerr), Tags: []string{"raw-entry:refused"},
+				})
+				continue
 			}
 			if lerr != nil { // build the bytes by hand for an unknown leaf type
 				leaf.LeafType = ct.TimestampedEntryLeafType
